@@ -13,6 +13,12 @@ pub mod u256;
 pub(crate) mod fields;
 pub(crate) mod sm2p256_table;
 
+/// Verification hook re-exports (only with `--cfg gm_rs_verif`).
+#[cfg(gm_rs_verif)]
+pub mod verif_hooks {
+    pub use crate::fields::fp64::verif_hooks::push_candidate;
+}
+
 /// Fp 的加法，减法，乘法并不是简单的四则运算。其运算结果的值必须在Fp的有限域中，这样保证椭圆曲线变成离散的点
 ///
 /// 这里我们规定一个有限域Fp
